@@ -6,6 +6,10 @@
 (*   it; a complete request is answered and the loop arms again.  Bytes of   *)
 (*   an incomplete request do NOT re-arm.  When the deadline passes while    *)
 (*   the server waits, the read fails and the connection is torn down.       *)
+(* While an answer is being sent the connection is "writing": every write of *)
+(* the answer arms its own write deadline to now + T (Progress), so a        *)
+(* transfer may take any time as long as it moves, and a peer that stops     *)
+(* reading (no Progress for T) is cut as well (WriteTimeout).                *)
 (* Discrete time; Tick is not allowed to run away from a due timeout by more *)
 (* than Slack (the server reacts within Slack ticks).                        *)
 (***************************************************************************)
@@ -24,6 +28,7 @@ Init ==
   /\ hist = [c \in Conns |-> [cutAt |-> -1, lastArm |-> 0]]
 
 Due(c) == st[c] = "waiting" /\ now >= armedAt[c] + T
+WDue(c) == st[c] = "writing" /\ now >= armedAt[c] + T
 
 (* a complete request arrives in time: answered, deadline armed again *)
 Request(c) ==
@@ -32,6 +37,37 @@ Request(c) ==
   /\ partial' = [partial EXCEPT ![c] = FALSE]
   /\ hist' = [hist EXCEPT ![c].lastArm = now]
   /\ UNCHANGED <<now, st>>
+
+(* a complete request whose answer is a transfer: the connection starts writing, the first write arms the write deadline *)
+StartTransfer(c) ==
+  /\ st[c] = "waiting" /\ ~Due(c)
+  /\ st' = [st EXCEPT ![c] = "writing"]
+  /\ armedAt' = [armedAt EXCEPT ![c] = now]
+  /\ partial' = [partial EXCEPT ![c] = FALSE]
+  /\ hist' = [hist EXCEPT ![c].lastArm = now]
+  /\ UNCHANGED now
+
+(* the peer took some more bytes: the next write arms again *)
+Progress(c) ==
+  /\ st[c] = "writing" /\ ~WDue(c)
+  /\ armedAt' = [armedAt EXCEPT ![c] = now]
+  /\ hist' = [hist EXCEPT ![c].lastArm = now]
+  /\ UNCHANGED <<now, st, partial>>
+
+(* the answer is complete: back to waiting for the next command, read deadline armed *)
+EndTransfer(c) ==
+  /\ st[c] = "writing" /\ ~WDue(c)
+  /\ st' = [st EXCEPT ![c] = "waiting"]
+  /\ armedAt' = [armedAt EXCEPT ![c] = now]
+  /\ hist' = [hist EXCEPT ![c].lastArm = now]
+  /\ UNCHANGED <<now, partial>>
+
+(* the transfer has not moved for T: the blocked write fails, the connection is torn down *)
+WriteTimeout(c) ==
+  /\ WDue(c)
+  /\ st' = [st EXCEPT ![c] = "cut"]
+  /\ hist' = [hist EXCEPT ![c].cutAt = now]
+  /\ UNCHANGED <<now, armedAt, partial>>
 
 (* some bytes of a request arrive, not all of it: nothing is re-armed *)
 Partial(c) ==
@@ -46,23 +82,26 @@ Timeout(c) ==
   /\ UNCHANGED <<now, armedAt, partial>>
 
 ClientClose(c) ==
-  /\ st[c] = "waiting"
+  /\ st[c] \in {"waiting", "writing"}
   /\ st' = [st EXCEPT ![c] = "closed"]
   /\ UNCHANGED <<now, armedAt, partial, hist>>
 
 Tick ==
   /\ now < MaxTime
-  /\ \A c \in Conns : st[c] = "waiting" => now < armedAt[c] + T + Slack     \* urgency
+  /\ \A c \in Conns : st[c] \in {"waiting", "writing"} => now < armedAt[c] + T + Slack     \* urgency
   /\ now' = now + 1
   /\ UNCHANGED <<st, armedAt, partial, hist>>
 
 Next == Tick \/ \E c \in Conns : Request(c) \/ Partial(c) \/ Timeout(c) \/ ClientClose(c)
-Spec == Init /\ [][Next]_vars /\ WF_vars(Tick) /\ \A c \in Conns : WF_vars(Timeout(c))
+                                 \/ StartTransfer(c) \/ Progress(c) \/ EndTransfer(c) \/ WriteTimeout(c)
+Spec == Init /\ [][Next]_vars /\ WF_vars(Tick) /\ \A c \in Conns : WF_vars(Timeout(c)) /\ WF_vars(WriteTimeout(c))
 
 (* an active connection is never cut: a cut happens only a full T after the last arming *)
 NoEarlyCut == \A c \in Conns : st[c] = "cut" => hist[c].cutAt >= hist[c].lastArm + T
 (* ... and not later than T + Slack *)
-CutInTime == \A c \in Conns : st[c] = "waiting" => now <= armedAt[c] + T + Slack
+CutInTime == \A c \in Conns : st[c] \in {"waiting", "writing"} => now <= armedAt[c] + T + Slack
 (* an idle connection is eventually cut (or the client leaves, or the model's clock ends) *)
 IdleCut == \A c \in Conns : [](Due(c) => <>(st[c] # "waiting"))
+(* ... and so is one whose peer stopped taking the answer *)
+StalledCut == \A c \in Conns : [](WDue(c) => <>(st[c] # "writing"))
 =============================================================================
